@@ -27,8 +27,10 @@ def add(c):
 # every file / cached bytecode was rendered by this function for SOME declaration (any code strings),
 # with the cookie of ITS OWN code strings; bytecode exists only for existing sources
 define('HonestCache()',
-       "forall(lambda p_s: implies(fs_exists(p_s), honest(fs_content(p_s))), pat=lambda p_s: fs_content(p_s))"
-       " and forall(lambda p_s: implies(pyc_exists(p_s), fs_exists(p_s) and honest(pyc_code(p_s))), pat=lambda p_s: pyc_code(p_s))")
+       # (temporary files - names handed out by tempfile - are nobody's cache module)
+       "forall(lambda p_s: implies(fs_exists(p_s) and not is_tmp(p_s), honest(fs_content(p_s))), pat=lambda p_s: fs_content(p_s))"
+       " and forall(lambda p_s: implies(pyc_exists(p_s) and not is_tmp(p_s), fs_exists(p_s)), pat=lambda p_s: pyc_exists(p_s))"
+       " and forall(lambda p_s: implies(pyc_exists(p_s) and not is_tmp(p_s), honest(pyc_code(p_s))), pat=lambda p_s: pyc_code(p_s))")
 
 # what executing a rendered module defines (ASSUMED about the text the dropped prefix generates: it compiles,
 # it defines the cookie, pack_impl iff pack code was generated, unpack_impl iff unpack code was generated -
@@ -87,3 +89,30 @@ add(Contract(
     # no exception: a definition always succeeds under HonestCache
     raises={},
     modifies=['self.pkt_class.pack_impl', 'self.pkt_class.unpack_impl', 'slot(any:Module, *)'], allocates=True, returns='none'))
+
+
+# ---------------------------------------------------------------- C16: crashes and concurrent definitions
+# Same function, same environment contracts, two more things (DESIGN.md 4.C16):
+#  * crash points: the process may die after ANY operation on the file system; the cache must then still be
+#    honest (no torn module under a module name), so that every later definition is in the situation of C15;
+#  * rely/guarantee: before every operation other processes may have changed the cache in any way the same
+#    code can (replace a module by an honest one for another declaration, remove or write bytecode);
+#    the class must still get the code of ITS OWN declaration - or keep the generic drivers, which follow the
+#    declaration by construction - and the definition must not fail.
+_c15 = CONTRACTS['codegen:CodeGenerator.generate_code']
+add(Contract(
+    'C16#codegen:CodeGenerator.generate_code', target=_c15.target,
+    params=_c15.params, locals_in=_c15.locals_in, body_after_assign=_c15.body_after_assign, env=True,
+    prefix_checks=_c15.prefix_checks,
+    requires=_c15.requires, free_requires=_c15.free_requires,
+    crash_invariant="HonestCache()", rely="HonestCache()",
+    ensures=[
+        "HonestCache()",
+        "implies(self.generate_for_pack and same(old(self.pkt_class.pack_impl), generic_pack()),"
+        "        same(self.pkt_class.pack_impl, codefn('pack', pack_code)) or same(self.pkt_class.pack_impl, generic_pack()))",
+        "implies(self.generate_for_unpack and same(old(self.pkt_class.unpack_impl), generic_unpack()),"
+        "        same(self.pkt_class.unpack_impl, codefn('unpack', unpack_code)) or same(self.pkt_class.unpack_impl, generic_unpack()))",
+        _c15.ensures[3], _c15.ensures[4],
+    ],
+    raises={},
+    modifies=_c15.modifies, allocates=True, returns='none'))
